@@ -26,6 +26,22 @@ def numbOf (q : Bool) (t : Str) : V :=
 
 def cfg (normKey : Str → Str := id) : CifArg.Cfg := { numbOf := numbOf, normKey := normKey }
 
+/-- leading `@<orig hex>=<normalised hex>` tokens of a request: the table-key normaliser for the keys of the value
+    (every key not listed is its own normal form); returns the normaliser and the remaining tokens -/
+def takeNormPairs : List String → Option ((Str → Str) × List String)
+  | [] => some (id, [])
+  | t :: rest =>
+    match t.toList with
+    | '@' :: body =>
+      match (String.ofList body).splitOn "=" with
+      | [o, n] => do
+          let orig ← unhex o
+          let nk ← unhex n
+          let (f, r) ← takeNormPairs rest
+          pure ((fun k => if k == orig then nk else f k), r)
+      | _ => none
+    | _ => some (id, t :: rest)
+
 def digitsStr (d : List Nat) : String := if d.isEmpty then "-" else String.join (d.map toString)
 
 mutual
@@ -60,8 +76,11 @@ def handle : Handler
       | .ok b' => pure s!"sr grow rc=0 pos={b'.position} limit={b'.limit}"
       | .err c => pure s!"sr grow rc={c}"
       | .diverges => pure "sr diverges"
-  | "v" :: toks =>
-      match CifArg.parseValue (cfg) (toks.length + 1) toks with
+  | "v" :: toks0 =>
+      match takeNormPairs toks0 with
+      | none => none
+      | some (nf, toks) =>
+      match CifArg.parseValue (cfg nf) (toks.length + 1) toks with
       | some (v, []) =>
         match serialize v with
         | .ok b =>
